@@ -274,6 +274,24 @@ func schedFromChunks(chunks []int, variant int) [][2]int {
 	return s
 }
 
+// dripSched: every chunk of size bytes is preceded by an empty read; the last data comes with the terminal condition when withFin.
+func dripSched(n, size int, withFin bool) [][2]int {
+	var s [][2]int
+	for r := n; r > 0; r -= size {
+		k := size
+		if r < size {
+			k = r
+		}
+		s = append(s, [2]int{0, 0})
+		if r <= size && withFin {
+			s = append(s, [2]int{k, 1})
+			return s
+		}
+		s = append(s, [2]int{k, 0})
+	}
+	return append(s, [2]int{0, 1})
+}
+
 func cmdStream(args []string) *Result {
 	res := newResult()
 	if len(args) >= 2 && args[0] == "--replay" {
@@ -294,7 +312,7 @@ func cmdStream(args []string) *Result {
 			}
 		case "c01":
 			in := bytesOf(anyInts(rec["input"]))
-			for entry := 0; entry < 4; entry++ {
+			for entry := 0; entry < nC01Entries; entry++ {
 				t := runC01(in, entry)
 				res.Evaluations++
 				if why := c01OK(t, in); why != "" {
@@ -447,6 +465,20 @@ func streamC08(res *Result, enc *shardWriter, tlcOuts []string) {
 		emit(&c08Case{Input: doc, Cut: cut, Fail: fail, Sched: schedFromChunks(ch, src.rng.Intn(4))})
 	})
 	phase("c08: mixed done", res)
+	// (B4) drip schedules on long lines: a reader that never fails and always makes progress, but needs hundreds of reads (half of
+	// them empty) to deliver one line
+	stretched(func(doc []byte) {
+		if len(doc) > 3000 {
+			return
+		}
+		d := append([]byte(nil), doc...)
+		emit(&c08Case{Input: d, Cut: len(d), Sched: dripSched(len(d), 2, true)})
+		if thorough {
+			emit(&c08Case{Input: d, Cut: len(d), Sched: dripSched(len(d), 1, false)})
+			emit(&c08Case{Input: d, Cut: len(d) / 2, Fail: true, Sched: dripSched(len(d)/2, 2, true)})
+		}
+	})
+	phase("c08: drip done", res)
 	// (B3) large inputs: buffer growth beyond 8 KiB and 64 KiB, chunk borders inside CRLF / NUL runs
 	for _, doc := range largeInputs() {
 		for _, size := range []int{8191, 8192, 8193, 5000, 70000} {
@@ -467,9 +499,11 @@ func streamC08(res *Result, enc *shardWriter, tlcOuts []string) {
 
 // ---------------------------------------------------------------- C01
 
+const nC01Entries = 6
+
 type c01Trace struct {
 	ID    int     `json:"id"`
-	Entry int     `json:"entry"` // 0 = Parse, 1 = NewBlockParser over a one-shot reader, 2 = one line per Read, 3 = three bytes per Read
+	Entry int     `json:"entry"` // 0 = Parse, 1 = NewBlockParser over a one-shot reader, 2 = one line per Read, 3 = three bytes per Read, 4 = one line per Read and the last one together with io.EOF, 5 = drip reader (empty read before every two bytes, last data with io.EOF)
 	In    []int   `json:"in"`    // input bytes (only when short; see Long)
 	Long  int     `json:"long"`  // 1: input too long to ship byte-wise; derived scalars are logged instead
 	N     int     `json:"n"`     // input length
@@ -507,7 +541,11 @@ func runC01(input []byte, entry int) *c01Trace {
 		// Read ends exactly where nothing is pending) / three bytes per Read; every block is looked at only after
 		// the last one has been returned, so a Source that a later Read overwrote is seen.
 		var err error
-		blocks, refs, err = streamParseFrom(&lineReader{data: buf, fixed: map[int]int{2: 0, 3: 3}[entry]})
+		if entry == 5 {
+			blocks, refs, err = streamParseFrom(&dripReader{data: buf})
+		} else {
+			blocks, refs, err = streamParseFrom(&lineReader{data: buf, fixed: map[int]int{2: 0, 3: 3, 4: 0}[entry], withEOF: entry == 4})
+		}
 		t.Err = errID(err, nil)
 	}
 	long := len(input) > 96
@@ -562,15 +600,23 @@ func runC01(input []byte, entry int) *c01Trace {
 
 // lineReader delivers one line (up to and including its line ending) per Read, or fixed-size chunks.
 type lineReader struct {
-	data  []byte
-	fixed int
+	data    []byte
+	fixed   int
+	withEOF bool // the last piece of data is returned together with io.EOF (io.Reader allows it)
 }
 
-func (r *lineReader) Read(p []byte) (int, error) {
+func (r *lineReader) Read(p []byte) (n int, err error) {
 	if len(r.data) == 0 {
 		return 0, io.EOF
 	}
-	n := r.fixed
+	if r.withEOF {
+		defer func() {
+			if len(r.data) == 0 {
+				err = io.EOF
+			}
+		}()
+	}
+	n = r.fixed
 	if n == 0 {
 		n = len(r.data)
 		for i, c := range r.data {
@@ -588,6 +634,37 @@ func (r *lineReader) Read(p []byte) (int, error) {
 	}
 	copy(p, r.data[:n])
 	r.data = r.data[n:]
+	return n, nil
+}
+
+// dripReader never fails and always makes progress, in the least convenient legal way: every piece of data (two bytes) is
+// preceded by an empty read (0, nil), and the last piece comes together with io.EOF.
+type dripReader struct {
+	data []byte
+	pos  int
+	tick bool
+}
+
+func (r *dripReader) Read(p []byte) (int, error) {
+	r.tick = !r.tick
+	if r.tick && len(p) > 0 {
+		return 0, nil
+	}
+	if r.pos >= len(r.data) {
+		return 0, io.EOF
+	}
+	n := 2
+	if n > len(r.data)-r.pos {
+		n = len(r.data) - r.pos
+	}
+	if n > len(p) {
+		n = len(p)
+	}
+	copy(p, r.data[r.pos:r.pos+n])
+	r.pos += n
+	if r.pos == len(r.data) {
+		return n, io.EOF
+	}
 	return n, nil
 }
 
@@ -674,9 +751,13 @@ func c01OK(t *c01Trace, input []byte) string {
 
 func streamC01(res *Result, enc *shardWriter) {
 	id := 0
+	enumerating := false // during the exhaustive enumerations the drip reader is used on the shortest strings only
 	emit := func(doc []byte) {
 		d := append([]byte(nil), doc...)
-		for entry := 0; entry < 4; entry++ {
+		for entry := 0; entry < nC01Entries; entry++ {
+			if entry == 5 && enumerating && len(d) > 4 {
+				continue
+			}
 			var t *c01Trace
 			pm := ""
 			func() {
@@ -715,9 +796,11 @@ func streamC01(res *Result, enc *shardWriter) {
 	if thorough {
 		maxLen = 6
 	}
+	enumerating = true
 	exhaustive(alpha, maxLen, emit)
 	// white space that is NOT a blank-line character (form feed, vertical tab, NBSP, EM SPACE, NEL): a line made of it is content
 	exhaustive([]string{"a", " ", "\n", "\f", "\v", "\u00a0", "\u2003", "\u0085", "\r", "\ufeff", "#"}, maxLen-1, emit)
+	enumerating = false
 	src := newSource(1)
 	n := 8000
 	if thorough {
